@@ -119,7 +119,7 @@ FD == Fam("fd",
   "!0 = !{i32 1}\nattributes #0 = { nounwind }\nattributes #1 = { cold }\n",
   "declare {md}{linkage}{preempt}{vis}{dll}{cc}{retattr}i8* @f(i32{pattr}, i32*{ppattr}, ...){uaddr}{as}{fnattr}{align}{gc}{prefix}{prologue}\n",
   << Slot("md", <<"", "!foo !0 ", "!foo !0 !bar !0 ">>), Slot("linkage", <<"", "extern_weak ", "external ">>), Slot("preempt", Preempts), Slot("vis", Visibs),
-     Slot("dll", DLLs), Slot("cc", <<"", "coldcc ", "cc 10 ">>), Slot("retattr", PtrRetAttrs), Slot("pattr", ParamAttrs), Slot("ppattr", PtrParamAttrs),
+     Slot("dll", DLLs), Slot("cc", <<"", "x86_stdcallcc ", "cc 10 ">>), Slot("retattr", PtrRetAttrs), Slot("pattr", ParamAttrs), Slot("ppattr", PtrParamAttrs),
      Slot("uaddr", UAddrs), Slot("as", <<"", " addrspace(1)">>), Slot("fnattr", <<"", " nounwind", " #0", " #0 #1">>),
      Slot("align", <<"", " align 16">>), Slot("gc", <<"", " gc \"statepoint-example\"">>), Slot("prefix", <<"", " prefix i32 1">>),
      Slot("prologue", <<"", " prologue i32 2">>) >>,
@@ -170,7 +170,7 @@ MEM == Fam("mem",
   << Slot("inst", <<
        "  %a = alloca i32\n  store i32* %a, i32** undef",
        "  %a = alloca inalloca i32\n  store i32* %a, i32** undef",
-       "  %a = alloca swifterror i8*\n  store i8** %a, i8*** undef",
+       "  %a = alloca swifterror i8*\n  store i8* null, i8** %a",
        "  %a = alloca i32, i64 %n\n  store i32* %a, i32** undef",
        "  %a = alloca i32, align 16\n  store i32* %a, i32** undef",
        "  %a = alloca i32, i64 %n, align 8, addrspace(0)\n  store i32* %a, i32** undef",
@@ -305,7 +305,7 @@ CONSTS == Fam("const",
   "@g = global {tc}\n",
   << Slot("tc", <<
        "i1 true", "i1 false", "i8 -128", "i8 127", "i32 0", "i64 -9223372036854775808", "i64 9223372036854775807", "i128 170141183460469231731687303715884105727",
-       "i33 4294967296", "i1 1", "i8 255",
+       "i33 4294967296", "i1 1", "i8 255", "i64 9223372036854775808", "i64 18446744073709551615", "i128 18446744073709551616", "i16 32768", "i64 4096", "i64 65535", "i32 4294967295",
        "half 1.0", "half 0xH3C00", "bfloat 0xR3F80", "float 1.0", "float 0x3FF0000000000000", "float 0x36A0000000000000", "double 1.0e+300", "double 0x7FF0000000000000",
        "double -0.0", "x86_fp80 0xK3FFF8000000000000000", "fp128 0xL00000000000000003FFF000000000000", "ppc_fp128 0xM3FF00000000000000000000000000000",
        "i8* null", "i32* @x", "i32 addrspace(1)* null", "%S* null", "%O* null", "void ()* @fn", "i8** null",
@@ -374,6 +374,10 @@ MODLVL == Fam("mod",
        "define void ()* @r() {\n  ret void ()* null\n}\n@i = dso_local ifunc void (), void ()* ()* @r, partition \"p\"",
        "attributes #0 = { nounwind }\nattributes #7 = { \"a\" \"b\"=\"c\" align=8 alignstack=16 uwtable }\ndeclare void @f() #0\ndeclare void @g() #7",
        "define void @f() unnamed_addr jumptable {\n  ret void\n}",
+       "define void @f() addrspace(1) {\n  ret void\n}\n@p = global void () addrspace(1)* @f\n@q = global [1 x i8 addrspace(1)*] [i8 addrspace(1)* bitcast (void () addrspace(1)* @f to i8 addrspace(1)*)]\ndefine void () addrspace(1)* @g() {\n  call addrspace(1) void @f()\n  ret void () addrspace(1)* @f\n}",
+       "define void @d() addrspace(2) {\n  ret void\n}\n@a = alias void (), void () addrspace(2)* @d\n@g = addrspace(3) global i32 0\n@h = global i32 addrspace(3)* @g\ndefine i32 @u() {\n  %v = load i32, i32 addrspace(3)* @g\n  ret i32 %v\n}",
+       "declare i8* @m(i32, i32) allocsize(1, 0)\ndeclare i8* @n(i32, i32) allocsize(0)\ndefine i8* @c() {\n  %r = call i8* @m(i32 1, i32 2) allocsize(1, 0)\n  ret i8* %r\n}\nattributes #0 = { allocsize(1, 0) vscale_range(1,1) alignstack=1 }\ndeclare i8* @o(i32, i32) #0",
+       "declare void @a(i8* align 1 dereferenceable(1) dereferenceable_or_null(1), i32* byval(i32) align 1)\ndefine void @b() align 1 {\n  %x = alloca i8, align 1\n  %y = alloca i8, i32 0\n  ret void\n}",
        "declare i8* @m(i32, i32) allocsize(0, 1)",
        "declare void @s({ i32 }* sret({ i32 }) align 4, i32* inalloca(i32))",
        "declare spir_kernel void @k()\ndeclare amdgpu_kernel void @a()",
@@ -515,6 +519,8 @@ SPELL == Fam("spell",
        "@a = global float 0x3FE0000000000001\n@b = global float 0x4000000000000001\n@c = global float 0xC004000000000001\n@d = global float 0x3FF8000010000000\n@e = global float 0.1\n@f = global half 0.1\n@g = global double 0.1",
        "@a = global double 3.14159265358979323846264338327950288\n@b = global double 1e-400\n@c = global double 1e400\n@d = global float 16777217.0\n@e = global double 9007199254740993.0\n@f = global x86_fp80 0xK4000C90FDAA22168C235\n@g = global fp128 0xL8469898CC51701B84000921FB54442D1",
        "!0 = !DIEnumerator(isUnsigned: true, value: 18446744073709551615, name: \"MAX\")\n!1 = !DIEnumerator(value: -9223372036854775808, name: \"MIN\")\n!e = !{!0, !1}",
+       "@\"007\" = global i32 0\n@\"00\" = global i32* @\"007\"\ndefine i32 @\"010\"(i32 %\"01\") {\n\"0010\":\n  br label %\"08\"\n\"08\":\n  ret i32 %\"01\"\n}",
+       "@a = global i64 9223372036854775808\n@b = global i64 18446744073709551615\n@c = global i64 u0x8000000000000000\n@d = global i64 u0xFFFFFFFFFFFFFFFF\n@e = global i128 u0xFFFFFFFFFFFFFFFFFFFFFFFFFFFFFFFF\n@f = global i64 -9223372036854775808\n@g = global i32 u0xFFFFFFFF\n@h = global i16 u0x8000",
        "!0 = !DISubrange(upperBound: 9, lowerBound: 1)\n!1 = !DIFile(directory: \"/d\", filename: \"f.c\")\n!2 = !DIBasicType(encoding: DW_ATE_signed, size: 32, name: \"int\")\n!e = !{!0, !1, !2}"
      >>) >>,
   {}, FALSE)
